@@ -5,7 +5,10 @@ PROP = dict(
     regen=['crctable', 'wireconsts'],
     theorems=['Fit.C02.C02_parses', 'Fit.C02.C02_datasize', 'Fit.C02.C02_header_crc', 'Fit.C02.C02_crc_whole_sequence_partial',
               'Fit.C02.C02_legacy_crc_witness', 'Fit.C02.C02_decodes'],
-    families=[dict(name='encw', prop=True)],
+    families=[dict(name='encw', prop=True),
+              # the destination side of 'what the encoder reports as written': operation log, final content and the real
+              # CheckIntegrity verdict/count per writer kind and buffer size (shared with C09; seeded C02-5, C02-6)
+              dict(name='enc-writers', prop=True)],
     trusted_base=STD_TRUST + [
         "FitModel/FitFormat.lean is the specification (an independent reading of the FIT framing); the driver evaluates it (parseStream, header CRC, file CRC over header+records, sequence count, header/CRC written back to the caller) on the bytes the REAL encoder wrote for every operation of family encw",
         "proved over the model: parseStream succeeds with one sequence per FIT value (C02_parses, via records_spec: the decoder's framing refines the spec's), data size exact, header CRC, file CRC = CRC of the whole sequence for 14-byte headers (crc_append_self), the SDK decoder accepts every successful encode (C02_decodes)",
